@@ -1,7 +1,7 @@
 (* Runner: line-based history parser, trace printer and event loop for the model (FORMAT.md).
    Extracted to OCaml (ocaml/); also runnable with vm_compute.  Definitions only.
    This file is correspondence glue: no property theorem depends on it. *)
-From ATS Require Import Prelude Dec Uuid Semver Types Contract.
+From ATS Require Import Prelude Dec Uuid Semver Types Contract InvCheck.
 
 Local Notation "'let?' x := e 'in' k" := (match e with Some x => k | None => None end)
   (at level 200, x pattern, e at level 100, k at level 200).
@@ -429,6 +429,14 @@ Definition run_line (r : rstate) (raw : string) : rstate * list string :=
   if String.prefix "EV " raw then
     let kw := match split " " (strip_ev raw) with k :: _ => k | [] => "" end in
     let '(r', out) := step_line r raw in
+    (* the state this event starts from is the one the implementation dumped last: does it satisfy the invariant of the
+       theorems?  (InvCheck.inv_check_iff: inv_check st = true <-> Inv st) *)
+    let out := if mem kw ["EXEC"; "PEXEC"; "QUERY"; "MIGRATE"; "PMIGRATE"]
+               then match out with
+                    | [] => []
+                    | _ => removelast out ++ [if inv_check (rs_st r) then "INV 1" else "INV 0"; "END"]
+                    end
+               else out in
     (with_follow r' (mkfollow true (adoptable kw) false empty_state), out)
   else
   match split " " raw with
